@@ -7,10 +7,13 @@ import (
 	"bufio"
 	"bytes"
 	"crypto/sha256"
+	"encoding/binary"
 	"encoding/hex"
 	"encoding/json"
 	"fmt"
 	"io"
+	"os"
+	"syscall"
 )
 
 // Off is a DCP resume point (offset / checkpoint document / stream request fields).
@@ -99,6 +102,62 @@ type Writer struct {
 }
 
 func NewWriter(w io.Writer) *Writer { return &Writer{w: w} }
+
+// MapWriter appends to a shared memory mapping of a file: no system call per event (a goroutine blocked
+// in a write system call hands its P to another thread, which lets wall-clock load reorder goroutines),
+// and what was written survives the death of the process. Layout: 8-byte length, then the bytes.
+type MapWriter struct {
+	mem []byte
+	pos int
+}
+
+const MapSize = 1 << 28
+
+func NewMapWriter(path string) (*MapWriter, error) {
+	f, err := os.OpenFile(path, os.O_CREATE|os.O_RDWR|os.O_TRUNC, 0o644)
+	if err != nil {
+		return nil, err
+	}
+	defer f.Close()
+	if err := f.Truncate(MapSize); err != nil {
+		return nil, err
+	}
+	mem, err := syscall.Mmap(int(f.Fd()), 0, MapSize, syscall.PROT_READ|syscall.PROT_WRITE, syscall.MAP_SHARED)
+	if err != nil {
+		return nil, err
+	}
+	return &MapWriter{mem: mem, pos: 8}, nil
+}
+
+func (m *MapWriter) Write(b []byte) (int, error) {
+	if m.pos+len(b) > len(m.mem) {
+		return 0, io.ErrShortWrite
+	}
+	copy(m.mem[m.pos:], b)
+	m.pos += len(b)
+	binary.LittleEndian.PutUint64(m.mem[0:8], uint64(m.pos-8))
+	return len(b), nil
+}
+
+// ReadMapFile returns the journal bytes of a file written by MapWriter.
+func ReadMapFile(path string) ([]byte, error) {
+	f, err := os.Open(path)
+	if err != nil {
+		return nil, err
+	}
+	defer f.Close()
+	var hdr [8]byte
+	if _, err := io.ReadFull(f, hdr[:]); err != nil {
+		return nil, err
+	}
+	n := binary.LittleEndian.Uint64(hdr[:])
+	if n > MapSize {
+		return nil, fmt.Errorf("journal: bad length %d", n)
+	}
+	buf := make([]byte, n)
+	_, err = io.ReadFull(f, buf)
+	return buf, err
+}
 
 func (jw *Writer) Write(e *Ev) {
 	jw.n++
